@@ -184,6 +184,18 @@ impl CommandModel for Sim {
         if let Some(p) = self.prints.get(&key) {
             output(p);
         }
+        // A compiler fails when a file it includes does not exist.
+        let missing_include = (s.depfile.is_some() || s.msvc)
+            && self
+                .reports
+                .get(&key)
+                .map(|r| r.iter().any(|h| !self.model.exists(&vcore::refbuild::canon(h))))
+                .unwrap_or(false);
+        let outcome = if missing_include && outcome == Outcome::Ok {
+            Outcome::Fail
+        } else {
+            outcome
+        };
         let term = match outcome {
             Outcome::Fail => Term::Failure,
             Outcome::Interrupt => Term::Interrupted,
@@ -236,7 +248,11 @@ impl CommandModel for Sim {
             cmdline: cmdline.to_string(),
             term,
             model_dirty: dirty.is_dirty(),
-            model_reason: format!("{:?}", dirty),
+            model_reason: if missing_include {
+                "missing-include".to_string()
+            } else {
+                format!("{:?}", dirty)
+            },
             generation: g,
         });
         term
